@@ -41,6 +41,9 @@ sed -e "s#^replace github.com/syndtr/goleveldb => .*#replace github.com/syndtr/g
 cp $VERIF/harness/go.sum "$SCR/harness.sum" 2>/dev/null || cp "$REPO/go.sum" "$SCR/harness.sum"
 ( cd $VERIF/harness && $GO test -c -modfile="$SCR/harness.mod" -o "$BIN.tmp" ./sim ) >&2 || fail "harness does not compile against the instrumented tree"
 mv "$BIN.tmp" "$BIN"
-# keep the three newest binaries
-ls -t $CACHE/sim-*.test 2>/dev/null | tail -n +4 | xargs -r rm -f
+# keep the six newest binaries, and never remove one younger than two hours
+# (a long-running check may still be using it)
+ls -t $CACHE/sim-*.test 2>/dev/null | tail -n +7 | while read f; do
+  [ -n "$(find "$f" -mmin +120 2>/dev/null)" ] && rm -f "$f"
+done
 echo "$BIN"
